@@ -500,6 +500,8 @@ def _ensemble_case(es: dict) -> list[dict]:
     from mxlpy import fit
 
     multiprocessing.cpu_count = lambda: 2          # the wrappers size their worker pools by it (harness-side only)
+    devnull = os.open(os.devnull, os.O_WRONLY)     # ... and cannot switch their progress bars off: this dedicated worker
+    os.dup2(devnull, 2)                            # process (and the pools it starts) writes its stderr to /dev/null
     out = []
     exps = [term_value(t) for t in es["exp"]]
     if any(v is None for v in exps):
